@@ -71,17 +71,22 @@ type c18Case struct {
 	AckErrors bool
 	Timeout   time.Duration // ListenForReplyTimeout (0: none)
 	Callers   []c18Caller
+	ShutdownAtPub bool // the router is shut down (its context cancelled: the context of the command in hand ends) while the reply is being published -- the publish takes 40 ms; the command is settled by its outcome all the same, and only once the reply is out
 	PresetOp  bool // an OnSend hook of the command bus has already put something under the operation-id metadata key (metadata propagated from the command that is being handled, say): the request still gets its own id
 	Foreign   int // concurrent requests of the other command type (result type []string) on the same reply topic
 }
 
 type c18Pub struct {
 	message.Publisher
+	hold func()
 	on   func(topic string, msgs []*message.Message, err error)
 	fail func(msgs []*message.Message) bool
 }
 
 func (p c18Pub) Publish(topic string, msgs ...*message.Message) error {
+	if p.hold != nil {
+		p.hold()
+	}
 	if p.fail != nil && p.fail(msgs) {
 		return errors.New("scripted reply publish failure")
 	}
@@ -89,6 +94,8 @@ func (p c18Pub) Publish(topic string, msgs ...*message.Message) error {
 	p.on(topic, msgs, err)
 	return err
 }
+
+const c18MultiLine = "scripted handler error\n\tdetail: line two\r\nline three\n"
 
 func runC18(c *Ctx) error {
 	T := c.Trace("RequestReplyTrace")
@@ -120,6 +127,11 @@ func runC18(c *Ctx) error {
 		// the caller's context is done before the request is made: one time-out reply, the channel closes, the listener's hook runs
 		cases = append(cases, c18Case{Class: "caller-context-already-done", AckErrors: ack,
 			Callers: []c18Caller{{"c1", "precancelled", 0, false}, {"c2", "drain", 1, false}, {"c3", "precancelled", 1, false}}})
+		// the command's context ends while its reply is being published (the router is shut down at that moment)
+		cases = append(cases, c18Case{Class: "shutdown-during-reply-publish", AckErrors: ack, ShutdownAtPub: true, Callers: []c18Caller{{"c1", "drain", 0, false}}})
+		// a handler error whose text has several lines
+		cases = append(cases, c18Case{Class: "multi-line-error-text", AckErrors: ack,
+			Callers: []c18Caller{{"c1n", "drain", 1, false}, {"c2n", "sendwithreply", 1, false}, {"c3", "drain", 1, false}}})
 		// the publish of the reply fails once: the command must be Nacked and redelivered whatever AckCommandErrors says
 		for _, fail := range []int{0, 1} {
 			cases = append(cases, c18Case{Class: "reply-publish-fails", AckErrors: ack, Callers: []c18Caller{{"c1", "drain", fail, true}, {"c2", "readone", 0, false}}})
@@ -240,7 +252,18 @@ func c18Body(r *tr.Run, cs c18Case) {
 			pubFail[cl.Name] = true
 		}
 	}
-	replyPub := c18Pub{Publisher: gc, on: func(topic string, msgs []*message.Message, err error) {
+	var shutdown func()
+	replyPub := c18Pub{Publisher: gc, hold: func() {
+		if cs.ShutdownAtPub {
+			mu.Lock()
+			f := shutdown
+			mu.Unlock()
+			if f != nil {
+				f()
+			}
+			time.Sleep(40 * time.Millisecond)
+		}
+	}, on: func(topic string, msgs []*message.Message, err error) {
 		if err != nil {
 			return
 		}
@@ -359,6 +382,8 @@ func c18Body(r *tr.Run, cs c18Case) {
 			switch cmd.Wraps {
 			case "pkg":
 				return c18Res{cmd.Caller, n}, pkgerrors.Wrap(errors.New("root cause"), "scripted handler error")
+			case "lines":
+				return c18Res{cmd.Caller, n}, errors.New(c18MultiLine)
 			case "canceled":
 				return c18Res{cmd.Caller, n}, c18WrapErr{context.Canceled}
 			case "deadline":
@@ -395,6 +420,9 @@ func c18Body(r *tr.Run, cs c18Case) {
 	}
 	rctx, rcancel := context.WithCancel(context.Background())
 	defer rcancel()
+	mu.Lock()
+	shutdown = rcancel
+	mu.Unlock()
 	go func() { _ = router.Run(rctx) }()
 	select {
 	case <-router.Running():
@@ -517,6 +545,8 @@ func c18Caller1(r *tr.Run, cs c18Case, cl c18Caller, bus *cqrs.CommandBus, backe
 		cmd.Wraps = "canceled"
 	} else if strings.HasSuffix(cl.Name, "y") {
 		cmd.Wraps = "deadline"
+	} else if strings.HasSuffix(cl.Name, "n") {
+		cmd.Wraps = "lines"
 	} else if strings.HasSuffix(cl.Name, "w") {
 		cmd.Wraps = "pkg" // an error wrapped with context (github.com/pkg/errors): the reply carries the whole text
 	}
@@ -533,6 +563,9 @@ func c18Caller1(r *tr.Run, cs c18Case, cl c18Caller, bus *cqrs.CommandBus, backe
 		et := ""
 		if rep.Error != nil {
 			et = rep.Error.Error()
+		}
+		if strings.HasSuffix(cl.Name, "n") && et == c18MultiLine {
+			et = "scripted handler error" // (the text arrived as it was, line breaks and all)
 		}
 		if strings.HasSuffix(cl.Name, "w") && et == "scripted handler error: root cause" {
 			et = "scripted handler error" // (the whole text arrived; the specification knows the handler's error by this name)
